@@ -1374,8 +1374,15 @@ def s_exp_arg(draw, dmax):
 
 @st.composite
 def s_expm(draw, tier):
-    return {"mat": draw(s_exp_arg(16 if tier == "quick" else 32)), "rep": draw(st.sampled_from(["dense", "qarray", "csr", "csc", "coo"])),
-            "herm_flag": draw(st.booleans())}
+    # the three code routes are constructed, not hoped for: general dense, Hermitian shortcut (dense only), sparse
+    route = draw(st.sampled_from(["dense", "herm", "herm", "sparse"]))
+    mat = draw(s_exp_arg(16 if tier == "quick" else 32))
+    if route == "herm":
+        mat["kind"] = draw(st.sampled_from(["herm", "herm", "neg_psd"]))
+        mat["dtype"] = draw(st.sampled_from(["complex128", "complex128", "float64"]))
+        mat["d"] = max(2, mat["d"])
+    rep = draw(st.sampled_from(["csr", "csc", "coo"] if route == "sparse" else ["dense", "qarray"]))
+    return {"mat": mat, "rep": rep, "herm_flag": route == "herm" or draw(st.booleans())}
 
 
 def run_expm(case):
@@ -1388,6 +1395,7 @@ def run_expm(case):
     A = to_rep(M, case["rep"])
     use_herm = bool(case["herm_flag"] and herm)
     info = dict(fn="expm", rep=case["rep"], herm=use_herm, kind=m["kind"])
+    herm_route = use_herm and case["rep"] in ("dense", "qarray")
     got = qu.expm(A, herm=True) if use_herm else qu.expm(A)
     sparse_in = case["rep"] in ("csr", "csc", "coo")
     if sparse_in != sp.issparse(got):
@@ -1400,7 +1408,8 @@ def run_expm(case):
     err = rel_err(G, ref, floor=floor)
     if not err <= EXACT64:
         raise Violation("value", err=err, **info)
-    return {"nt": d >= 2 and m["kind"] != "zero", "cls": ["kind=" + m["kind"], "rep=" + case["rep"], "herm=" + str(use_herm), "norm=" + str(m["norm"])],
+    return {"nt": d >= 2 and m["kind"] != "zero", "cls": ["kind=" + m["kind"], "rep=" + case["rep"], "herm=" + str(use_herm), "norm=" + str(m["norm"])]
+            + (["herm-shortcut:" + ("cplx" if M.dtype.kind == "c" else "real")] if herm_route else []),
             "err": err}
 
 
@@ -1653,6 +1662,8 @@ def _run_rsvd(case):
             raise Violation("return-form", got="tuple of %d" % len(out), **info)
         U, sv, VH = None, out, None
     sv = np.asarray(sv)
+    if k is not None and sv.shape != (int(k),):
+        raise Violation("count", got=list(sv.shape), want=[int(k)], **info)
     tol = 1e-8
     full = np.zeros(max(sv.size, r))
     full[:r] = sv_true
